@@ -206,11 +206,13 @@ def witnessComponents (data : Bytes) (base : Nat) : Comp :=
     Shelley+ and Dijkstra paths call `extractWitnessComponentOffsets(rawWitness, witnessPos)`,
     the Byron path does not. (`rawWitness` is the slice at the reported witness range —
     `offsets_slice_shelley` — so the model re-slices the block there.) -/
-def components (b : Bytes) : Option (List Comp) :=
-  match rawItems b, extract b with
+def componentsOf (b : Bytes) (ex : Option (List Loc)) : Option (List Comp) :=
+  match rawItems b, ex with
   | some top, some locs =>
     if !isDijkstra top && top.length ≥ 3 && isByron top then some (locs.map fun _ => {})
     else some (locs.map fun l => witnessComponents (slice b l.wit.1 l.wit.2) l.wit.1)
   | _, _ => none
+
+def components (b : Bytes) : Option (List Comp) := componentsOf b (extract b)
 
 end GV.Model.OffsetsWit
